@@ -5,7 +5,7 @@ cd /verif
 out=seeded/RESULTS.md
 echo "# Seeded changes vs checks (bin/run_seeds.sh, quick tier)" > $out
 echo >> $out; echo "| seed | property | outcome | detail |" >> $out; echo "|---|---|---|---|" >> $out
-for d in seeded/*/; do
+for d in /verif/seeded/*/; do
   id=$(basename $d); prop=${id%%-*}
   [ -n "$1" ] && [ "$1" != "$prop" ] && [ "$1" != "$id" ] && continue
   if ! git -C /repo apply --check $d/patch.diff 2>/dev/null; then echo "| $id | $prop | patch no longer applies | |" >> $out; continue; fi
